@@ -18,7 +18,8 @@ RULE = ("case = history of 1-4 blocks of 1-6 txs on fresh accounts, through Begi
         "reverting frame, value-draining transfer / endowed create / endowed call that a later message "
         "of the same tx can no longer afford; or the byte-identical resubmission of an earlier message; a closing block resubmits "
         "every delivered message, optionally after re-funding) or a "
-        "Cosmos-signed MsgSend with explicit sequence by the secp256k1 / eth_secp256k1 form of the same key; "
+        "resubmission of a message by another key inside an ordinary Cosmos tx (bare or nested in 1-3 authz.MsgExec, From empty / "
+        "forged / real signer), or a Cosmos-signed MsgSend with explicit sequence by the secp256k1 / eth_secp256k1 form of the same key; "
         "non-trivial = the history holds an accepted message AND a later rejected resubmission or stale/gapped nonce of the "
         "same signer, or a multi-message tx, or an accepted tx whose execution failed; distinct = distinct input")
 ASSUMPTIONS = [
@@ -46,6 +47,12 @@ def _msg(d):
 
 
 def _tx(tx, der):
+    if tx["kind"] == "wrap":
+        # an ordinary Cosmos tx of account 10+key carrying a MsgEthereumTx: bare or one MsgExec deep it is refused
+        # statically by the ante guards; deeper it passes the Cosmos ante (sequence +1) and the inner message fails
+        # (the Cosmos ante also runs the stateless ValidateBasic of every nested message)
+        static_reject = tx["depth"] <= 1 or not all(x.get("vbok", True) for x in (der or []))
+        return "TxCosmos %d %d%%N %s false" % (10 + tx["key"] % 4, tx["q"], _b(static_reject))
     if tx["kind"] == "cosmos":
         acct = tx["key"] % 4 if tx["ethkey"] else 10 + tx["key"] % 4
         return "TxCosmos %d %d%%N %s %s" % (acct, tx["q"], _b(tx["ethkey"]), _b(not tx["bad"]))
@@ -105,6 +112,9 @@ def nontrivial(rec):
 def classify(rec):
     ks = ["blocks=%d" % len(rec["input"])]
     for tx, d, o in _flat(rec):
+        if tx["kind"] == "wrap":
+            ks.append("tx:wrapped-eth-msg/depth=%d/from=%s/%s" % (tx["depth"], tx["forge"] or "empty", "accepted" if o["accepted"] else "rejected"))
+            continue
         if tx["kind"] == "cosmos":
             ks.append("tx:cosmos" + ("/ethkey" if tx["ethkey"] else "") + ("/accepted" if o["accepted"] else "/rejected"))
             continue
@@ -136,6 +146,8 @@ def signature(rec):
     for tx, d, o in _flat(rec):
         if tx["kind"] == "cosmos":
             kinds.add("cosmos")
+        elif tx["kind"] == "wrap":
+            kinds.add("wrap")
         else:
             for m in _ms(tx):
                 kinds.add("dup" if m["dup"] >= 0 else m["act"])
@@ -164,7 +176,7 @@ def shrink_candidates(inp):
     # drop a tx without eth messages (cosmos txs never shift message indices)
     for bi, b in enumerate(inp):
         for i, tx in enumerate(b):
-            if tx["kind"] != "eth" and len(b) > 1:
+            if tx["kind"] in ("cosmos", "fund") and len(b) > 1:
                 out.append(inp[:bi] + [b[:i] + b[i + 1:]] + inp[bi + 1:])
     # merge all blocks into one
     if len(inp) > 1:
